@@ -451,8 +451,18 @@ public:
       typename ttbl_t::term_map_t gen_map /*unused*/;
 
       // Build up the mapping of right onto left, variable by variable.
-      // Assumption: the set of variables in left & right are common.
       for (auto p : left.m_var_map) {
+        if (!left.m_ttbl.map_leq(right.m_ttbl, left.term_of_var(p.first),
+                                 right.term_of_var(p.first), gen_map))
+          return false;
+      }
+      // The variables constrained only by right must be mapped as
+      // well (they are unconstrained in left: term_of_var gives them
+      // a fresh term). Otherwise, right's equalities on them are
+      // ignored, e.g., top <= {x=y} would hold.
+      for (auto p : o.m_var_map) {
+        if (left.m_var_map.find(p.first) != left.m_var_map.end())
+          continue;
         if (!left.m_ttbl.map_leq(right.m_ttbl, left.term_of_var(p.first),
                                  right.term_of_var(p.first), gen_map))
           return false;
